@@ -1,2 +1,72 @@
-From BMC Require Import Base.
-Theorem C08_placeholder : True. Proof. exact I. Qed.
+(* C08 — Serialise-then-decode is the identity for two-way layers.
+   [ser_X v p] = (value after SerializeTo with FixLengths/ComputeChecksums, bytes) for inner payload [p];
+   [decode_X old bs] = DecodeFromBytes into a layer holding [old].  The models are run against the Go
+   SerializeTo/DecodeFromBytes pairs by the C08 check.  [sign] is an arbitrary function of the signed bytes:
+   the statements hold for every integrity algorithm and key.  The AES layer is stated over any block
+   function pair with dec (enc b) = b on 16-byte blocks (AES-128 under any key is one; the concrete
+   Gallina AES of Aes.v is validated against crypto/aes by the check, its invertibility is a premise here). *)
+From BMC Require Import Base Prim Layers Layers2 Serialize TwoWayProofs TwoWayIdem.
+
+(* decode ∘ serialise returns the value with its computed fields and the inner payload; serialising that
+   value again gives the same bytes *)
+Theorem C08_v2session : forall sign v p old v' bs,
+  v2_in_range v -> N.of_nat (length p) < 65536 ->
+  (v2_authenticated v = false -> v2_pad v = 0 /\ v2_signature v = []) ->
+  ser_v2session sign v p = Ok (v', bs) ->
+  let d := v2_set_payload v' p in
+  decode_v2session sign old bs = Ok d /\ v2_payload d = p /\ ser_v2session sign d (v2_payload d) = Ok (d, bs).
+Proof. exact v2session_two_way. Qed.
+Theorem C08_message : forall m p old m' bs,
+  msg_in_range m -> ser_message m p = Ok (m', bs) ->
+  let d := m_set_payload m' p in
+  decode_message old bs = Ok d /\ m_payload d = p /\ ser_message d (m_payload d) = Ok (d, bs).
+Proof. exact message_two_way. Qed.
+Theorem C08_v1session : forall v p old v' bs,
+  v1_authtype v < 256 -> v1_sequence v < 4294967296 -> v1_id v < 4294967296 ->
+  length (v1_authcode v) = 16%nat -> (v1_authtype v = 0 -> v1_authcode v = zeros 16) ->
+  ser_v1session v p = Ok (v', bs) ->
+  let d := v1_set_payload v' p in
+  decode_v1session old bs = Ok d /\ v1_payload d = p /\ ser_v1session d (v1_payload d) = Ok (d, bs).
+Proof. exact v1session_two_way. Qed.
+Theorem C08_rakp1 : forall v p old bs,
+  r1_tag v < 256 -> r1_bmc_id v < 4294967296 -> length (r1_random v) = 16%nat ->
+  r1_maxpriv v < 16 -> (length (r1_username v) <= 16)%nat ->
+  ser_rakp1 v p = Ok bs ->
+  exists d, decode_rakp1 old bs = Ok d /\ d = v /\ ser_rakp1 d p = Ok bs.
+Proof. exact rakp1_two_way. Qed.
+Theorem C08_aes128cbc : forall enc dec : bytes -> bytes,
+  (forall b, length b = 16%nat -> dec (enc b) = b) -> (forall b, length (enc b) = 16%nat) ->
+  forall iv p old bs, length iv = 16%nat -> ser_aescbc enc iv p = Ok bs ->
+  exists d, decode_aescbc dec old bs = Ok d /\ ae_payload d = p /\ ser_aescbc enc iv (ae_payload d) = Ok bs.
+Proof. exact aes_two_way. Qed.
+
+(* the other direction, from the wire: whatever decodes re-serialises to the same bytes *)
+Theorem C08_message_from_wire : forall old bs m, all_bytes bs = true -> decode_message old bs = Ok m ->
+  ser_message m (m_payload m) = Ok (m, bs).
+Proof. exact message_reserialise. Qed.
+Theorem C08_v1session_from_wire : forall old bs v, all_bytes bs = true -> decode_v1session old bs = Ok v ->
+  v1_length v = u8 (N.of_nat (length (v1_payload v))) -> ser_v1session v (v1_payload v) = Ok (v, bs).
+Proof. exact v1session_reserialise. Qed.
+Theorem C08_rakp1_from_wire : forall old bs v, all_bytes bs = true ->
+  nth 1 bs 0 = 0 -> nth 2 bs 0 = 0 -> nth 3 bs 0 = 0 ->
+  N.land (nth 24 bs 0) 0xe0 = 0 -> nth 25 bs 0 = 0 -> nth 26 bs 0 = 0 ->
+  decode_rakp1 old bs = Ok v -> ser_rakp1 v (skipn (28 + length (r1_username v)) bs) = Ok bs.
+Proof. exact rakp1_reserialise. Qed.
+
+(* an unauthenticated v1.5 packet carries no AuthCode: whatever the value held, sixteen zero bytes come back *)
+Theorem C08_v1session_authcode_not_carried : forall v p old v' bs,
+  v1_authtype v < 256 -> v1_sequence v < 4294967296 -> v1_id v < 4294967296 -> length (v1_authcode v) = 16%nat ->
+  ser_v1session v p = Ok (v', bs) ->
+  decode_v1session old bs = Ok (v1_set_authcode (v1_set_payload v' p) (if v1_authtype v =? 0 then zeros 16 else v1_authcode v)).
+Proof. exact v1session_roundtrip_gen. Qed.
+(* an unauthenticated v2.0 packet carries no trailer: pad and signature of the value are not transmitted *)
+Theorem C08_v2session_trailer_not_carried : forall sign v p old v' bs,
+  v2_in_range v -> N.of_nat (length p) < 65536 -> v2_authenticated v = false ->
+  ser_v2session sign v p = Ok (v', bs) ->
+  decode_v2session sign old bs = Ok (v2_clear_trailer (v2_set_payload v' p)).
+Proof. exact v2session_roundtrip_unauth. Qed.
+(* the pad arithmetic: the confidentiality trailer is 1,2,..,n,n with n = 15 - len mod 16, the padded
+   plaintext a whole number of blocks *)
+Theorem C08_aes_trailer : forall n, aes_trailer n = aes_padbytes n ++ [N.of_nat (aes_padlen n)] /\
+  (aes_padlen n <= 15)%nat /\ (n + aes_padlen n + 1 = 16 * (Nat.div n 16 + 1))%nat.
+Proof. intros n. split; [apply aes_trailer_eq|]. split; [apply aes_padlen_le|apply aes_padded_length]. Qed.
